@@ -332,3 +332,18 @@ def rule_floors(lm):
         floor('LOCK', 'handler-call-sites', n_handler, 5, 'function, context function, prefix, infix, postfix handlers must each be invoked somewhere'),
         floor('LOCK', 'once-closures', len(lm.once_closures), 1, 'the built-in tables are filled inside a once primitive'),
     ]
+
+
+def rule_notry(lm):
+    """engine locks are acquired blockingly: a failed try_lock is indistinguishable from "nothing
+    registered" / "no such variable" """
+    obs = []
+    n = 0
+    for b in lm.prog.bodies:
+        for c in b.live_calls:
+            if c.callee in ('std::sync::Mutex::<T>::try_lock', 'std::sync::RwLock::<T>::try_read', 'std::sync::RwLock::<T>::try_write'):
+                n += 1
+                obs.append(bad('NOTRY', 'NOTRY|%s|%s' % (b.name, c.callee.split('::')[-1]), '%s on a %s lock in %s: under contention the lookup / update silently behaves as if the entry were absent' % (c.callee.split('::')[-1], guard_class(c.term['dest']['ty']), b.name), c.where(), body=b.name, bb=c.bb))
+    if n == 0:
+        obs.append(ok('NOTRY', 'NOTRY|none', 'no try_lock / try_read / try_write on any engine lock (%d lock sites are blocking)' % sum(len(v) for v in lm.direct_lock.values())))
+    return obs
